@@ -216,7 +216,26 @@ def rule_reader(r):
         r.check(m.get("kind") == "c", "sasmodels/models/%s.py" % name, "radius_effective_modes", "%d modes on a compiled model" % len(modes[name]), 0)
 
 
+def rule_carry(r):
+    """The reported <V_shell>, <V_form> and R_eff are the kernel's carried sums (shared with C01 R-C01-carry, Fq kernels):
+    a sum restored from the wrong slot changes the reported volume only for meshes spanning several invocations."""
+    res = cfront.map_units("sa.rules.c01:analyse_unit")
+    idx = cfront.generate_units()
+    n = 0
+    for unit, rows in sorted(res.items()):
+        if not idx["models"].get(unit, {}).get("have_Fq"):
+            continue
+        for row in rows:
+            if row[0] == "R-C01-carry" and row[3].endswith(":Iq"):
+                _, status, f, fn, construct, line, detail = row
+                n += 1
+                getattr(r, status)(f, fn, construct, line, detail)
+    if n < 100:
+        raise AnalysisError("carry rule examined only %d instances" % n)
+
+
 RULES = [
+    ("R-C14-carry", 100, "reported volumes/radius are carried correctly across kernel invocations (shared with C01)", rule_carry),
     ("R-C14-modes", 55, "mode list <-> case labels", make_c_rule("R-C14-modes")),
     ("R-C14-eqvol", 15, "equivalent volume sphere = cbrt(V_form / (4 pi/3))", make_c_rule("R-C14-eqvol")),
     ("R-C14-prefactor", 20, "factor on <F^2> = square of the factor on <F>, up to a constant", make_c_rule("R-C14-prefactor")),
